@@ -5,7 +5,7 @@ V = os.path.dirname(os.path.dirname(os.path.abspath(__file__)))
 
 ZOO_NOTE = ("Trusted base: the scripted-world harness (harness/zoo.hpp), the trace analysis and the predicate for this property (written from the property statement), "
             "rapidcheck, libFuzzer and the sanitizer runtimes. Assumes the generators' input contract of DESIGN.md section 3 (asserted preconditions respected; a veto of a redirected request during activation excluded and counted). "
-            "Configuration space is sampled by a fixed zoo of 16 machine types; both header variants (shipped single header and development sources) are exercised.")
+            "Configuration space is sampled by a fixed zoo of 18 machine types; both header variants (shipped single header and development sources) are exercised.")
 
 P = {
  "C01": ("enter/exit automaton + observer agreement over generated API histories (rapidcheck stateful cases; libFuzzer in thorough)", "4.C01",
